@@ -17,12 +17,15 @@ RULE = (
     "every atom of the patterns' vocabulary (each whitespace character, each dead-space punctuation character, connectives, "
     "keywords, direction letters, digits, fraction glyphs, P.M. fragments), alone and followed by a space - enumerated - and "
     "every concatenation of two atoms - sampled by Hypothesis - x 7 suffixes, at n = as many as fit and half of that; "
-    "(repetition) k lines repeating the same or different Twp/Rge, k sections, k lots, k aliquots; (soup) token soup and "
-    "damaged descriptions. Each text is parsed (PLSSDesc(text, parse_qq=True); Tract(text, parse_qq=True) for the tract-level anchors) in an isolated worker process and its CPU time "
+    "(repetition) k lines repeating the same or different Twp/Rge, k sections, k lots, k aliquots, k of the widest lot (1..999) and section (1..99) ranges; (soup) token soup and "
+    "damaged descriptions. Each text is parsed (PLSSDesc(text, parse_qq=True); Tract(text, parse_qq=True) for the tract-level anchors) under the default configuration and - "
+    "for the dead-space / connective atoms exhaustively, for the sampled families at random - under each optional parse mode (segment, sec_within, the colon modes, ocr_scrub, "
+    "clean_qq, forced layouts; for tracts clean_qq, suppress_lot_divs, break_halves with a depth cap) in an isolated worker process and its CPU time "
     f"is compared with {timing.THRESHOLD_CPU_S} s (an ordinary parse of that size costs < 20 ms). Non-trivial: length >= 100. "
     "Distinct = distinct text."
 )
 ASSUMPTIONS = [
+    "Numbers stay within the documented ranges (sections of at most two digits, lots 1..999): 'Sec 1 - 998' creates a thousand tracts per range by design and is not what the statement is about; break_halves is only combined with a depth cap (without one its output doubles with every half by design).",
     "CPU seconds of the isolated worker decide; a wall-clock timeout with little CPU used is counted as inconclusive, never as a violation.",
 ]
 
@@ -80,11 +83,36 @@ def enum_tract_pump(tier):
     return cases
 
 
+# the same dead-space / connective atoms under each optional parse mode (those modes run patterns of their own) -------------
+MODE_CONFIGS = ["segment", "sec_within", "sec_colon_cautious", "sec_colon_required", "ocr_scrub", "clean_qq", "segment,sec_within", "desc_STR", "S_desc_TR"]
+MODE_ATOMS = [" ", "\t", "\n", ".", ",", ";", ":", "-", "–", "/", "&", "_", "(", "[", "and", "to", "thru", "of", "the", "Sec", "Lot", "N", "NE", "1", "14", "T154N-R97W", "x", "o", "l", "S", "I"]
+MODE_SUFFIXES = ["", ": NE/4", "\nT155N-R97W Sec 1: ALL", " x"]
+TRACT_MODE_CONFIGS = ["clean_qq", "suppress_lot_divs", "break_halves,qq_depth_max.3", "qq_depth.1"]
+
+
+def enum_mode_pump(tier):
+    cases = []
+    for pname in PREFIXES:
+        tract = pname.startswith("t_")
+        for a in MODE_ATOMS:
+            for unit in ([a, a + " "] if a.strip() else [a]):
+                for suf in (MODE_SUFFIXES if tier == "thorough" else MODE_SUFFIXES[:3]):
+                    if tract and suf.startswith("\nT155"):
+                        continue
+                    for cfg in (TRACT_MODE_CONFIGS if tract else MODE_CONFIGS):
+                        case = {"prefix": pname, "unit": unit, "suffix": suf, "frac": 1, "config": cfg}
+                        if tract:
+                            case["kind"] = "tract"
+                        cases.append(case)
+    return cases
+
+
 PAIR_CASE = st.fixed_dictionaries({
     "prefix": st.sampled_from(sorted(PREFIXES)), "a": st.sampled_from(ATOMS), "b": st.sampled_from(ATOMS), "gap": st.sampled_from(["", " ", ""]),
     # an optional third atom, so that units such as 'Sec. 1,' or '1 - 154' occur
     "c": st.sampled_from([""] * 3 + ATOMS), "gap2": st.sampled_from(["", " "]),
     "trail": st.sampled_from(["", " "]), "suffix": st.sampled_from(SUFFIXES), "frac": st.sampled_from([1, 1, 2, 4]),
+    "config": st.sampled_from([""] * 6 + MODE_CONFIGS),
 }).map(lambda c: dict(c, kind="tract") if c["prefix"].startswith("t_") else c)
 
 
@@ -107,9 +135,10 @@ def pair_unit(c):
 
 # structural repetition ----------------------------------------------------------
 REP_KINDS = ["same_twprge_lines", "different_twprge_lines", "twprge_only", "sections", "section_list", "lots", "lot_list", "aliquots",
-             "aliquot_chain", "aliquot_words", "desc_str_tracts", "twprge_spelled", "section_keyword_list", "lot_keyword_list", "section_ranges"]
+             "aliquot_chain", "aliquot_words", "desc_str_tracts", "twprge_spelled", "section_keyword_list", "lot_keyword_list", "section_ranges",
+             "wide_lot_ranges", "wide_section_ranges"]
 REP_TAILS = ["", "", "\nT155N-R97W Sec 1: ALL", ", T155N-R97W", "\nT155N-R97W"]
-REP_CASE = st.fixed_dictionaries({"rep": st.sampled_from(REP_KINDS), "sep": st.sampled_from(["\n", ", ", " ", "; ", ",\n", "\n\n", " and ", " & "]),
+REP_CASE = st.fixed_dictionaries({"config": st.sampled_from([""] * 6 + MODE_CONFIGS), "rep": st.sampled_from(REP_KINDS), "sep": st.sampled_from(["\n", ", ", " ", "; ", ",\n", "\n\n", " and ", " & "]),
                                   "k": st.integers(2, 60), "var": st.integers(0, 5), "tail": st.sampled_from(REP_TAILS)})
 
 
@@ -147,7 +176,18 @@ def rep_text(c):
             items.append(["Lot", "L.", "Lts.", "Lt.", "Lots", "L"][c["var"] % 6] + f" {i + 1}" + ["", "(40.0)", " [39.9]"][c["var"] % 3])
         elif kind == "section_ranges":
             items.append(f"{i % 30 + 1}{[' - ', ' thru. ', ' to ', '–', ' through ', ' thru '][c['var'] % 6]}{i % 30 + 3}")
+        elif kind == "wide_lot_ranges":
+            # few characters, many lots: the widest ranges the documented lot numbers (1..999) allow
+            items.append(["L1-999", "Lots 1-999", "L999-1", "Lt 1 - 998", "Lot 2 thru 999", "L1-500"][c["var"] % 6])
+        elif kind == "wide_section_ranges":
+            items.append(["Sec 1-99: ALL", "Sec 99 - 1: NE/4", "Sections 1 thru 99: Lot 1", "Sec 1-36: ALL", "§ 1 - 99: N/2", "Sec 2-98: Lots 1 - 99"][c["var"] % 6])
     tail = c.get("tail", "")
+    if kind == "wide_lot_ranges":
+        text = "T154N-R97W Sec 14: " + (sep if sep.strip() else ",").join(items)
+        return text[:MAXLEN - len(tail)] + tail
+    if kind == "wide_section_ranges":
+        text = "T154N-R97W " + (sep if sep.strip() else ", ").join(items)
+        return text[:MAXLEN - len(tail)] + tail
     if kind in ("section_list", "section_ranges"):
         text = "T154N-R97W Sections " + (sep if sep.strip() else ", ").join(items)
         return text[:MAXLEN - len(tail) - 6] + ": NE/4" + tail
@@ -168,7 +208,7 @@ def rep_text(c):
     return text[:MAXLEN - len(tail)] + tail
 
 
-SOUP_CASE = st.fixed_dictionaries({"text": soup.ANY_TEXT})
+SOUP_CASE = st.fixed_dictionaries({"text": soup.ANY_TEXT, "config": st.sampled_from([""] * 4 + MODE_CONFIGS)})
 
 _last = {}
 _replaying = [False]
@@ -186,13 +226,15 @@ def oracle(c):
         _last["status"] = "skipped"
         _last["len"] = len(text)
         return []
-    status, cpu = timing.measure(text, kind=c.get("kind", "plss"))
+    status, cpu = timing.measure(text, kind=c.get("kind", "plss"), config=c.get("config", ""))
     _last["status"] = status
     _last["len"] = len(text)
     if status == "slow":
         _slow_seen[0] += 1
         fam = family(c, text)
-        return [Failure(f"slow:{fam}", f"parsing {len(text)} characters took more than {timing.THRESHOLD_CPU_S} s of CPU ({cpu:.1f} s when stopped): {text[:120]!r}...",
+        if c.get("config"):
+            fam += f"@{c['config']}"
+        return [Failure(f"slow:{fam}", f"[config {c.get('config', '')!r}] parsing {len(text)} characters took more than {timing.THRESHOLD_CPU_S} s of CPU ({cpu:.1f} s when stopped): {text[:120]!r}...",
                         text=text, cpu=cpu)]
     if status == "inconclusive":
         note_excluded("inconclusive_wall_timeout_without_cpu")
@@ -224,11 +266,12 @@ def classes(c):
     if "rep" in c:
         out.append(f"rep={c['rep']}")
     out.append(f"status={_last.get('status')}")
+    out.append(f"config={c.get('config', '')}")
     return out
 
 
 def render(c):
-    return {"text": text_of(c), "entry": "Tract(text, parse_qq=True)" if c.get("kind") == "tract" else "PLSSDesc(text, parse_qq=True)"}
+    return {"text": text_of(c), "entry": "Tract(text, parse_qq=True)" if c.get("kind") == "tract" else "PLSSDesc(text, parse_qq=True)", "config": c.get("config", "")}
 
 
 SUBS = [
@@ -236,6 +279,8 @@ SUBS = [
         shards={"quick": 16, "thorough": 16}, budget_s={"quick": 170, "thorough": 1500}, max_shrink=0),
     Sub("tract_pump_atoms", oracle, enumerate=enum_tract_pump, nontrivial=lambda c: _last.get("len", 0) >= 100, classes=classes, render=render,
         exhaustive=True, shards={"quick": 8, "thorough": 16}, budget_s={"quick": 170, "thorough": 1500}, max_shrink=0),
+    Sub("pump_atoms_modes", oracle, enumerate=enum_mode_pump, nontrivial=lambda c: _last.get("len", 0) >= 100, classes=classes, render=render, exhaustive=True,
+        shards={"quick": 16, "thorough": 16}, budget_s={"quick": 170, "thorough": 1500}, max_shrink=0),
     Sub("pump_pairs", oracle, strategy=lambda tier: PAIR_CASE, nontrivial=lambda c: _last.get("len", 0) >= 100, classes=classes, render=render,
         n={"quick": 1500, "thorough": 15000}, shards={"quick": 8, "thorough": 16}, budget_s={"quick": 170, "thorough": 1500}, max_shrink=0),
     Sub("repetition", oracle, strategy=lambda tier: REP_CASE, nontrivial=lambda c: _last.get("len", 0) >= 100, classes=classes, render=render,
